@@ -293,7 +293,7 @@ func errIs(fr *frame, e, target iface) bool {
 	ms := fr.i.prog.MethodSets.MethodSet(e.t)
 	if sel := ms.Lookup(nil, "Is"); sel != nil {
 		f := fr.i.prog.MethodValue(sel)
-		if call(fr.i, fr, 0, f, []value{e.v, target}).(bool) {
+		if truth(call(fr.i, fr, 0, f, []value{e.v, target})) {
 			return true
 		}
 	}
